@@ -317,44 +317,45 @@ Proof. vm_compute. reflexivity. Qed.
 Example c15_uper_guarded : all_cycles_guarded cg_uper c15_nodes = Some 0%nat.
 Proof. vm_compute. reflexivity. Qed.
 
-(* OER: the cycle C -> C consists of CHOICE_decode_oer alone, which has no check *)
-Lemma c15_oer_choice_cycle : unguarded_cycle cg_oer [] [3%nat] = true /\ all_cycles_guarded cg_oer c15_nodes = None.
-Proof. vm_compute. split; reflexivity. Qed.
+Example c15_oer_guarded : all_cycles_guarded cg_oer c15_nodes = Some 0%nat.
+Proof. vm_compute. reflexivity. Qed.
+Example c15_xer_guarded : all_cycles_guarded cg_xer c15_nodes = Some 0%nat.
+Proof. vm_compute. reflexivity. Qed.
 
-(* XER: no decoder has the check: every recursive type is an unguarded cycle *)
-Lemma c15_xer_cycles :
-  forallb (fun cyc => unguarded_cycle cg_xer [] cyc) [[0]; [1]; [2]; [3]; [4]; [5; 6]; [7]]%nat = true /\
-  all_cycles_guarded cg_xer c15_nodes = None.
-Proof. vm_compute. split; reflexivity. Qed.
+(* the full statement for the modules of the check: in every transfer syntax the
+   call stack of every recursive type's decoder is bounded by the stack limit
+   (R = 0: no two unguarded decoders follow each other on a cycle), and an input
+   asking for deeper nesting makes a guard fire *)
+Definition c15_graphs : list cgraph := [cg_ber; cg_uper; cg_oer; cg_xer].
 
-(* the full statement "every recursive type's decoder stack is bounded in every
-   syntax" is false of the model of the code that exists *)
-Theorem guarded_recursion_refuted :
-  exists (g : cgraph) (root : node), (g = cg_oer \/ g = cg_xer) /\
-    forall (fr : node -> Z) (max : Z) (k : nat),
-      exists c, hd O c = root /\ is_chain g c = true /\ admissible g fr max 0 c = true /\ (k <= length c)%nat.
+Lemma c15_graphs_guarded g : In g c15_graphs -> all_cycles_guarded g c15_nodes = Some 0%nat.
 Proof.
-  exists cg_oer, 3%nat. split; [left; reflexivity|]. intros fr max k.
-  destruct c15_oer_choice_cycle as [Hc _].
-  pose proof (unguarded_cycle_unbounded cg_oer [] [3%nat] Hc fr max k) as H. cbv zeta in H.
-  eexists. split; [|exact H]. destruct k; reflexivity.
+  unfold c15_graphs. cbn [In].
+  intros [H|[H|[H|[H|[]]]]]; subst g;
+    [exact c15_ber_guarded|exact c15_uper_guarded|exact c15_oer_guarded|exact c15_xer_guarded].
 Qed.
 
-Theorem guarded_recursion_xer_refuted :
-  forall root, In root [0; 1; 2; 3; 4; 5; 7]%nat ->
-    forall (fr : node -> Z) (max : Z) (k : nat),
-      exists c, hd O c = root /\ is_chain cg_xer c = true /\ admissible cg_xer fr max 0 c = true /\ (k <= length c)%nat.
+Theorem guarded_recursion_all_syntaxes (g : cgraph) (fr : node -> Z) (f max : Z) :
+  In g c15_graphs ->
+  0 < f -> (forall v, f <= fr v) -> 0 <= max ->
+  forall c, is_chain g c = true -> admissible g fr max 0 c = true ->
+  Z.of_nat (length c) <= max / f + 1.
 Proof.
-  intros root Hin fr max k.
-  assert (Hcyc : exists cyc, hd O cyc = root /\ unguarded_cycle cg_xer [] cyc = true).
-  { cbn [In] in Hin.
-    destruct Hin as [H|[H|[H|[H|[H|[H|[H|[]]]]]]]]; subst root;
-      [exists [0%nat]|exists [1%nat]|exists [2%nat]|exists [3%nat]|exists [4%nat]|exists [5;6]%nat|exists [7%nat]];
-      split; reflexivity. }
-  destruct Hcyc as (cyc & Hhd & Hc).
-  pose proof (unguarded_cycle_unbounded cg_xer [] cyc Hc fr max k) as H. cbv zeta in H.
-  eexists. split; [|exact H].
-  destruct cyc as [|h t]; [discriminate|]. cbn [hd] in *. subst h. destruct k; reflexivity.
+  intros Hg Hf Hfr Hmax c Hc Ha.
+  exact (guarded_recursion g c15_nodes 0%nat fr f max (c15_graphs_guarded g Hg) Hf Hfr Hmax c Hc Ha).
+Qed.
+
+Theorem deep_nesting_fails_all_syntaxes (g : cgraph) (fr : node -> Z) (f max : Z) :
+  In g c15_graphs ->
+  0 < f -> (forall v, f <= fr v) -> 0 <= max ->
+  forall path, is_chain g path = true ->
+  max / f + 1 < Z.of_nat (length path) ->
+  exists k, run_path g fr max 0 0 path = GuardFired k /\ Z.of_nat k <= max / f + 2.
+Proof.
+  intros Hg Hf Hfr Hmax path Hc Hlen.
+  destruct (deep_nesting_fails g c15_nodes 0%nat fr f max (c15_graphs_guarded g Hg) Hf Hfr Hmax path Hc Hlen)
+    as (k & Hk & Hle).
+  exists k. split; [exact Hk|]. change (Z.of_nat 1) with 1 in Hle. lia.
 Qed.
 
 (* ------------------------------------------------------------------ heap: BER *)
